@@ -100,6 +100,9 @@ func prop(t *rapid.T) {
 			lateGlobal = true
 		}
 	}
+	// global middleware is not counted by the registration-time limit: chains of 64 and more handlers are legal (up to
+	// the 127 an int8 cursor can count) and - without aborts, which this check's scripts never do - run like any other
+	pm.MaxChain = 120
 	reqs := chain.Requests(t, pm, rapid.IntRange(1, 3).Draw(t, "extraProbes"))
 	// "global middleware in Use order, including those added after the route was registered": sometimes one more
 	// global Use arrives after the first round of requests; the second round must run it everywhere
@@ -124,7 +127,7 @@ func checkRound(t *rapid.T, w *chain.World, r *rux.Router, pm *chain.PModel, pro
 	for _, q := range reqs {
 		msg, info := chain.CheckRequest(w, r, pm, q[0], q[1])
 		if info.Skipped {
-			ev.Class("skipped:chain-longer-than-63")
+			ev.Class("skipped:chain-longer-than-120")
 			continue
 		}
 		ev.Eval()
@@ -145,6 +148,9 @@ func checkRound(t *rapid.T, w *chain.World, r *rux.Router, pm *chain.PModel, pro
 			ev.Class("chain:3-9")
 		default:
 			ev.Class("chain:1-2")
+		}
+		if len(info.Chain) > 63 {
+			ev.Class("chain:64-120-handlers(global middleware on top of a full route chain)")
 		}
 		if len(info.Chain) == 63 {
 			ev.Class("chain:exactly-63-handlers")
